@@ -640,14 +640,23 @@ def check_threads(res, B, elems, xs, case, sub, ops_wanted, bound=1, max_runs=15
         ps = [pool[which]] + ([pool[1 - which]] if len(kinds) == 2 else [])
 
         def call():
-            with contextlib.redirect_stdout(io.StringIO()):
-                os_ = [G.elem(ca.DM(p)) if k_ == "g" else A.elem(ca.DM(p)) for k_, p in zip(kinds, ps)]
-                return ev(fn(*os_)).tobytes()
+            # (no stdout redirection in here: redirect_stdout swaps a process-wide variable, interleaved threads would restore it out of order)
+            os_ = [G.elem(ca.DM(p)) if k_ == "g" else A.elem(ca.DM(p)) for k_, p in zip(kinds, ps)]
+            return ev(fn(*os_)).tobytes()
         return call
     names = sorted(ops)
     pairs = [(o, o) for o in names] + [(o, names[(i + 1) % len(names)]) for i, o in enumerate(names) if len(names) > 1]
     if only_pairs is not None:
         pairs = [p_ for p_ in only_pairs if p_[0] in ops and p_[1] in ops]
+    _quiet = contextlib.redirect_stdout(io.StringIO())
+    _quiet.__enter__()
+    try:
+        _check_threads_pairs(res, B, pairs, mk, threads, tracked, bound, max_runs, sub, case)
+    finally:
+        _quiet.__exit__(None, None, None)
+
+
+def _check_threads_pairs(res, B, pairs, mk, threads, tracked, bound, max_runs, sub, case):
     for a, b in pairs:
         fa, fb = mk(a, 0), mk(b, 1)
         try:
